@@ -4,6 +4,7 @@ package main
 import (
 	"context"
 	"fmt"
+	"strings"
 	"time"
 
 	"github.com/tychoish/fun/pubsub"
@@ -210,6 +211,135 @@ func scenario(be backend, opts pubsub.BrokerOptions, pubs, msgs int, late, unsub
 	}
 }
 
+// churn: nsubs subscribers (all subscribed before anything is published, all
+// keep receiving); publishers run concurrently with a list of subscription
+// actions executed by the main thread ("unsub:i", "unsub:i" again, "unsub:foreign"
+// for a channel that was never subscribed, "unsub:nil"); afterwards the main
+// thread publishes one more message (99). Oracle: never invented / duplicated
+// for anybody; every subscriber that never unsubscribes receives every message
+// (lossless back-ends), in the publishers' order with one worker.
+func churn(be backend, opts pubsub.BrokerOptions, nsubs, pubs, msgs int, actions []string) vs.Scenario {
+	return func() (func(), func(*vs.End) (string, string)) {
+		subs := make([]*subRec, nsubs)
+		for i := range subs {
+			subs[i] = &subRec{}
+		}
+		var published []*pubRec
+		quiet := false
+		body := func() {
+			bctx, cancelBroker := context.WithCancel(context.Background())
+			cctx, cancelClients := context.WithCancel(context.Background())
+			b := be.mk(bctx, opts)
+			fin := make(chan struct{}, 16)
+			n := 0
+			chans := make([]chan int, nsubs)
+			for i := range subs {
+				s := subs[i]
+				ch := b.Subscribe(cctx)
+				chans[i] = ch
+				s.subscribed = vs.Now()
+				n++
+				go func() {
+					defer func() { fin <- struct{}{} }()
+					for {
+						select {
+						case <-cctx.Done():
+							return
+						case m := <-ch:
+							s.got = append(s.got, m)
+							vs.Progress()
+						}
+					}
+				}()
+			}
+			for p := 1; p <= pubs; p++ {
+				p := p
+				n++
+				go func() {
+					for i := 1; i <= msgs; i++ {
+						r := &pubRec{msg: 10*p + i, call: vs.Now()}
+						published = append(published, r)
+						b.Publish(cctx, r.msg)
+						r.ret = vs.Now()
+					}
+					fin <- struct{}{}
+				}()
+			}
+			for _, a := range actions {
+				switch {
+				case a == "unsub:foreign":
+					b.Unsubscribe(cctx, make(chan int))
+				case a == "unsub:nil":
+					b.Unsubscribe(cctx, nil)
+				default:
+					var i int
+					fmt.Sscanf(a, "unsub:%d", &i)
+					if subs[i].unsubCall == 0 {
+						subs[i].unsubCall = vs.Now()
+					}
+					b.Unsubscribe(cctx, chans[i])
+				}
+			}
+			r := &pubRec{msg: 99, call: vs.Now()}
+			published = append(published, r)
+			b.Publish(cctx, r.msg)
+			r.ret = vs.Now()
+			vs.Quiesce()
+			quiet = true
+			cancelClients()
+			b.Stop()
+			b.Wait(context.Background())
+			for i := 0; i < n; i++ {
+				<-fin
+			}
+			cancelBroker()
+		}
+		check := func(e *vs.End) (string, string) {
+			where := fmt.Sprintf("%s %+v subs=%d pubs=%d msgs=%d actions=%v", be.name, opts, nsubs, pubs, msgs, actions)
+			pubSet := map[int]bool{}
+			for _, r := range published {
+				pubSet[r.msg] = true
+			}
+			for si, s := range subs {
+				seen := map[int]bool{}
+				for _, m := range s.got {
+					if !pubSet[m] {
+						return "invented-message", where + fmt.Sprintf(": subscriber %d received %d which was never published (%v)", si, m, s.got)
+					}
+					if seen[m] {
+						return "duplicate-delivery", where + fmt.Sprintf(": subscriber %d received %d twice (%v)", si, m, s.got)
+					}
+					seen[m] = true
+				}
+				if be.lossless && opts.BufferSize == 0 && quiet && s.unsubCall == 0 {
+					for _, r := range published {
+						if r.ret > 0 && !seen[r.msg] {
+							return "lost-message", where + fmt.Sprintf(": subscriber %d never unsubscribed but did not receive %d; got %v", si, r.msg, s.got)
+						}
+					}
+				}
+				if be.lossless && opts.WorkerPoolSize <= 1 {
+					lastOf := map[int]int{}
+					for _, m := range s.got {
+						if m == 99 {
+							continue
+						}
+						if m%10 < lastOf[m/10] {
+							return "publisher-order-not-preserved", where + fmt.Sprintf(": subscriber %d got %v", si, s.got)
+						}
+						lastOf[m/10] = m % 10
+					}
+				}
+			}
+			if t, d := endTag(e); t != "" {
+				return "not-clean/" + t, where + ": " + d
+			}
+			return "", ""
+		}
+		return body, check
+	}
+}
+
 func build(tier string) ([]runner.Instance, time.Duration) {
 	bound, budget := 1, 100*time.Second
 	if tier == "thorough" {
@@ -241,10 +371,50 @@ func build(tier string) ([]runner.Instance, time.Duration) {
 			}
 		}
 	}
+	type churnCase struct {
+		nsubs, pubs, msgs int
+		actions           []string
+		deep              bool
+	}
+	cases := []churnCase{
+		{3, 1, 1, []string{"unsub:0"}, false},
+		{3, 1, 1, []string{"unsub:1"}, false},
+		{3, 1, 1, []string{"unsub:2"}, false},
+		{2, 1, 1, []string{"unsub:1", "unsub:1"}, false},
+		{2, 0, 0, []string{"unsub:1", "unsub:1"}, false},
+		{2, 1, 1, []string{"unsub:foreign"}, false},
+		{1, 0, 0, []string{"unsub:foreign"}, false},
+		{1, 0, 0, []string{"unsub:nil"}, false},
+		{2, 0, 0, []string{"unsub:0", "unsub:foreign"}, false},
+		{3, 1, 2, []string{"unsub:1"}, true},
+		{3, 2, 1, []string{"unsub:0", "unsub:2"}, true},
+		{3, 1, 1, []string{"unsub:1", "unsub:1", "unsub:foreign"}, true},
+	}
+	for _, be := range backends() {
+		for _, par := range []bool{false, true} {
+			if par && !be.lossless {
+				continue
+			}
+			opts := pubsub.BrokerOptions{ParallelDispatch: par, WorkerPoolSize: 1}
+			for _, c := range cases {
+				if c.deep && tier != "thorough" {
+					continue
+				}
+				cb := bound
+				if c.nsubs == 3 && len(c.actions) == 1 && !par && be.name != "lifo1" && be.name != "queue-hard1" {
+					// an Unsubscribe landing while a dispatch is parked on a subscriber
+					// that is not receiving yet needs two deviations
+					cb = bound + 1
+				}
+				name := fmt.Sprintf("%s/churn/par=%v/subs=%d,pubs=%d,msgs=%d/%s", be.name, par, c.nsubs, c.pubs, c.msgs, strings.Join(c.actions, "+"))
+				out = append(out, runner.Instance{Group: be.name + "/churn", Name: name, Bound: cb, Scenario: churn(be, opts, c.nsubs, c.pubs, c.msgs, c.actions)})
+			}
+		}
+	}
 	return out, budget
 }
 
 func main() {
 	runner.Main(runner.Options{Property: "C08", Level: "exploration", Build: build,
-		Assume: []string{"model of sync/context/channels in verif/vs (DESIGN §2.2)", "window of a subscriber: Publish invoked after its Subscribe returned and returned before its Unsubscribe was invoked (logical times)", "small scope: 2 subscribers, <=2 publishers x <=2 messages, <=2 dispatch workers"}})
+		Assume: []string{"model of sync/context/channels in verif/vs (DESIGN §2.2)", "window of a subscriber: Publish invoked after its Subscribe returned and returned before its Unsubscribe was invoked (logical times)", "small scope: 2 subscribers (3 in the churn family), <=2 publishers x <=2 messages, <=2 dispatch workers"}})
 }
